@@ -16,6 +16,7 @@ an explicit decidable predicate.
 import CaddyModel.C12.StripLemmas
 import CaddyModel.C12.EffectLemmas
 import CaddyModel.C12.CasProof
+import CaddyModel.C12.IdResolve
 import CaddyModel.C12.Witness
 
 namespace CaddyModel.C12
@@ -235,6 +236,97 @@ theorem rejected_changes_nothing_partial {env : Env} {s : State} (h : Reachable 
     (serve env r s).1 = s :=
   serve_rejected (reachable_inv h) hkey hrej
 
+/-! ### an object tagged with @id is reachable under /id/ as that same object -/
+
+/-- the tagged object at position `segs` of the loaded document `j`, indexed under `t`, can
+    be expressed by a URL and reached by the traversal.  Every field but the two
+    representation invariants excludes a proved counter-example or an inherent limit:
+    `segsOk` (a key that is "", "." or contains '/': `id_resolves_full_fails`),
+    `notRoot` (an `@id` on the top-level object is answered by a 301), `notDots` (a trailing
+    "..." is the append marker), `notNested` (array directly in an array), `idOk` (the id has
+    to fit one URL path segment), `unambiguous` (two objects with the same id: Go's map order
+    decides). Numeric ids are reachable under their `%v` spelling `t` (`idText`), which from
+    1e6 upward is not the JSON spelling. -/
+structure Addressable (j : Json) (segs : List Bytes) (t : Bytes) : Prop where
+  uniq : uniqueKeys j = true
+  short : shortArrays j = true
+  segsOk : okSegs segs
+  notRoot : segs ≠ []
+  notDots : segs.getLast? ≠ some dots
+  notNested : nestedEnd (cfgKey :: segs) (.obj [(cfgKey, j)]) false = false
+  idOk : okSeg t
+  unambiguous : (taggedJ j).filter (fun e => e.2 = t) = [(segs, t)]
+
+/-- **@id resolves.** After any history, for every addressable tagged object of the running
+    configuration: `GET /id/<id>` is answered 200 with exactly that object — the value at its
+    position in the document, carrying that `@id` — and the ETag names its expanded path. -/
+theorem id_resolves_partial {env : Env} {s : State} (h : Reachable env s) (hkey : hasCfgKey s.rawCfg = true)
+    {j : Json} (hj : s.rawCfgJSON = some j) {segs : List Bytes} {t : Bytes} (ha : Addressable j segs t) :
+    ∃ kvs v, serve env (readReq (idPrefix ++ t)) s = (s, .okGet (some (.obj kvs)) (renderPath (cfgKey :: segs))) ∧
+      sget segs j = some (.obj kvs) ∧ lookup idKey kvs = some v ∧ idText v = some t := by
+  have hi := reachable_inv h
+  -- the tree
+  have hroot : s.rawCfg = .obj [(cfgKey, j)] := by
+    have h1 := cfgOf_root_eq hi.shape hkey
+    have h2 := hi.doc
+    rw [hj] at h2
+    simp only [encodeOf] at h2
+    rw [h2] at h1; exact h1
+  -- the index
+  have hidx : s.index = (taggedJ j).map (entryOf (slash :: cfgKey)) := by
+    have := hi.idx
+    rw [hj] at this
+    exact indexJ_tagged j _ _ this
+  have hokc : okSegs (cfgKey :: segs) := by
+    intro x hx; simp at hx; rcases hx with hx | hx
+    · rw [hx]; exact okSeg_cfgKey
+    · exact ha.segsOk x hx
+  have hbase : (slash :: cfgKey : Bytes) = renderPath [cfgKey] := by simp [renderPath]
+  have hfold : segs.foldl pathJoin (slash :: cfgKey) = renderPath (cfgKey :: segs) := by
+    rw [hbase, foldl_pathJoin_ok (base := [cfgKey]) (by intro x hx; simp at hx; rw [hx]; exact okSeg_cfgKey) (by simp) ha.segsOk]
+    simp
+  have hcand : candidates t s.index = [renderPath (cfgKey :: segs)] := by
+    rw [hidx, candidates_map, ha.unambiguous]
+    simp [hfold]
+  -- the tagged object
+  have hmem : (segs, t) ∈ taggedJ j := by
+    have : (segs, t) ∈ (taggedJ j).filter (fun e => e.2 = t) := by rw [ha.unambiguous]; simp
+    exact (List.mem_filter.1 this).1
+  obtain ⟨kvs, v, hs1, hs2, hs3⟩ := taggedJ_entry j ha.uniq ha.short (segs, t) hmem
+  refine ⟨kvs, v, ?_, hs1, hs2, hs3⟩
+  -- the request
+  obtain ⟨s0, rest, hsegs⟩ : ∃ s0 rest, segs = s0 :: rest := by
+    cases hs : segs with
+    | nil => exact absurd hs ha.notRoot
+    | cons a b => exact ⟨a, b, rfl⟩
+  have hrid : route (idPrefix ++ t) = .id := by
+    have := route_render_id ha.idOk
+    have hr : renderPath [idSeg, t] = idPrefix ++ t := by simp [renderPath, idPrefix]
+    rw [hr] at this; exact this
+  have hrcfg : route (renderPath (cfgKey :: segs)) = .config := by
+    rw [hsegs] at hokc ⊢; exact route_render_config hokc
+  have hto := handleConfigID_unique (idx := s.index) ha.idOk hcand hokc (by simp)
+  -- the read
+  have hparts : pathParts (renderPath (cfgKey :: segs)) = (cfgKey :: segs, false) := by
+    apply pathParts_render hokc (by simp)
+    rw [hsegs]; rw [hsegs] at ha
+    have := ha.notDots
+    simpa [List.getLast?_cons_cons] using this
+  have hget : access .get (renderPath (cfgKey :: segs)) .empty (.obj [(cfgKey, j)]) =
+      (.obj [(cfgKey, j)], .ok (some (.obj kvs))) := by
+    apply get_is_lookup_partial _ _ _ (trimSlash_render_ne hokc (by simp))
+    · show sget (pathParts (renderPath (cfgKey :: segs))).1 _ = _
+      rw [hparts]; simp only
+      rw [sget_obj_cons]; simp [lookup]; exact hs1
+    · refine ⟨?_, ?_⟩
+      · show (pathParts (renderPath (cfgKey :: segs))).1 ≠ []
+        rw [hparts]; simp
+      · show nestedEnd (pathParts (renderPath (cfgKey :: segs))).1 _ false = false
+        rw [hparts]; exact ha.notNested
+  unfold serve
+  simp only [readReq, hrid, hto, hrcfg]
+  rw [handleConfig_get _ _ _ _ rfl, hroot, hget]
+
 /-! ### `@id` never changes what the configuration means -/
 
 /-- what the run step decides and hands to the apps depends on the document only through
@@ -369,5 +461,19 @@ example : (runSched casEnv pN incr [1, 0, 0, 1, 1, 1] ⟨casLoaded, fun _ => non
     = [(0, .num [49, 49]), (1, .num [49, 49, 49])] := by decide
 example : (access .get pN .empty (runSched casEnv pN incr [1, 0, 0, 1, 1, 1] ⟨casLoaded, fun _ => none, []⟩).s.rawCfg).2
     = .ok (some (.num [49, 49, 49])) := by decide
+
+-- id_resolves_partial: the tagged object of the loaded example document is addressable …
+example : Addressable exDoc [kApps, kC12] kX where
+  uniq := by decide
+  short := by decide
+  segsOk := by unfold okSegs okSeg; decide
+  notRoot := by decide
+  notDots := by decide
+  notNested := by decide
+  idOk := by unfold okSeg; decide
+  unambiguous := by decide
+-- … and GET /id/x returns it
+example : (serve exEnv (readReq (idPrefix ++ kX)) exLoaded).2 =
+    .okGet (some (.obj [(idKey, .str kX), (kA, .arr [.num [49]])])) pC12 := by decide
 
 end CaddyModel.C12
